@@ -10,7 +10,7 @@ HEADER = "From Coq Require Import ZArith List.\nFrom TV Require Import Common.Ha
 CASE_T = "C12.Corr.case"
 PROPS = ["C12/Props.v"]
 CLAUSE = {1: "stale-read", 2: "getter-ran-twice", 3: "change-not-notified", 4: "event-announces-stale-value"}
-PNAMES = ["scalar", "child", "kids", "dict", "set", "nums", "nested", "kidchild", "multi", "chain", "mitems", "sitems", "raw", "xscalar"]
+PNAMES = ["scalar", "child", "kids", "dict", "set", "nums", "nested", "kidchild", "multi", "chain", "mitems", "sitems", "raw", "xscalar", "area"]
 KEYS = ["ka", "kb", "kc"]
 
 
@@ -79,7 +79,7 @@ def nontrivial(case, obs):
 RELEVANT = {  # traits whose mutation matters for each property (steers the generator only)
     "scalar": ["value"], "child": ["child", "value"], "kids": ["kids", "value"], "dict": ["m", "value"],
     "set": ["s", "value"], "nums": ["nums"], "nested": ["child", "kids", "value"],
-    "kidchild": ["kids", "child", "value"], "multi": ["value", "child", "nums"], "chain": ["value"], "mitems": ["m"], "sitems": ["s"], "raw": ["raw"], "xscalar": ["value"],
+    "kidchild": ["kids", "child", "value"], "multi": ["value", "child", "nums"], "chain": ["value"], "mitems": ["m"], "sitems": ["s"], "raw": ["raw"], "xscalar": ["value"], "area": ["value", "other"],
 }
 
 
@@ -122,6 +122,10 @@ def gen_case(rnd, ctx, maxlen):
             tr = rnd.choice(RELEVANT[pname] * 3 + ["other", "value", "child", "kids", "m", "s", "nums"])
             if tr in ("child", "kids", "m", "s") and not hi:
                 tr = "value"
+            if tr in ("value", "other") and rnd.random() < 0.12:
+                ops.append(["Redeclare", i, tr])
+                ctx.count("op:Redeclare")
+                continue
             if tr == "raw":
                 ops.append(["SetRaw", 0, rnd.randrange(8)])
                 ctx.count("op:SetRaw")
@@ -235,6 +239,33 @@ def corpus():
         cs.append(dict(prop="raw", cached=cached, n=2, init=dup,
                        ops=[["Read"], ["Listen"], ["SetRaw", 0, 1], ["Read"], ["SetRaw", 0, 2], ["Read"], ["SetRaw", 0, 0],
                             ["Read"], ["SetRaw", 0, 1], ["Read"], ["SetRaw", 0, 1], ["Read"], ["SetRaw", 0, 4], ["Read"]]))
+    # unpickling: a static change handler reads the cached property while the state is being restored
+    for proto in (0, 2, 5):
+        cs.append(dict(prop="area", cached=True, n=2, init=dup,
+                       ops=[["Set", 0, "other", 4], ["Read"], ["Copy", "pickle", proto], ["Read"], ["Listen", "observe"],
+                            ["Set", 0, "other", 2], ["Read"], ["Set", 0, "value", 3], ["Read"], ["Read"]]))
+    # a dependency re-declared on the instance with add_trait after the observers were installed
+    for cached in (True, False):
+        cs.append(dict(prop="scalar", cached=cached, n=2, init=dup,
+                       ops=[["Read"], ["Listen", "observe"], ["Set", 0, "value", 3], ["Read"], ["Redeclare", 0, "value"], ["Read"],
+                            ["Set", 0, "value", 6], ["Read"], ["Set", 0, "value", 2], ["Read"]]))
+        cs.append(dict(prop="child", cached=cached, n=2, init=dup,
+                       ops=[["Read"], ["Listen", "observe"], ["Redeclare", 1, "value"], ["Set", 1, "value", 6], ["Read"], ["Read"]]))
+    # a nested object attached while its container is set but EMPTY, then filled in place
+    emp = [{"value": 1, "child": 1, "kids": [], "m": [], "s": [], "nums": []},
+           {"value": 2, "child": None, "kids": [], "m": [], "s": [], "nums": []},
+           {"value": 5, "child": None, "kids": [], "m": [], "s": [], "nums": []}]
+    emp2 = [dict(emp[0], child=None)] + emp[1:]
+    for cached in (True, False):
+        for kw in (True, False):
+            cs.append(dict(prop="nested", cached=cached, n=3, init=emp, kwargs=kw,
+                           ops=[["Read"], ["Listen", "observe"], ["Append", 1, "kids", 2], ["Read"], ["Set", 2, "value", 7],
+                                ["Read"], ["Append", 1, "kids", 2], ["Read"], ["Set", 2, "value", 1], ["Read"], ["Read"]]))
+            cs.append(dict(prop="nested", cached=cached, n=3, init=emp2, kwargs=kw,
+                           ops=[["Read"], ["Listen", "observe"], ["Set", 0, "child", 1], ["Read"], ["Append", 1, "kids", 2],
+                                ["Read"], ["Set", 2, "value", 7], ["Read"]]))
+            cs.append(dict(prop="kids", cached=cached, n=3, init=emp, kwargs=kw,
+                           ops=[["Read"], ["Listen", "observe"], ["Append", 0, "kids", 2], ["Read"], ["Set", 2, "value", 7], ["Read"]]))
     # LISTED FINDING (always included): an observed Property added with add_trait / add_class_trait gets no observers
     for how in ("instance", "class"):
         for cached in (True, False):
